@@ -208,6 +208,7 @@ def find_concrete_disagreement(pc, lhs, rhs, tries=6):
     vs = size_vars(pc)
     seen = set()
     extra = []
+    cmode = any(_mentions_conj(m.body) for m in lhs.monos + rhs.monos)
     for attempt in range(tries):
         # prefer sizes >= 2 and pairwise different so that mix-ups are visible
         prefs = []
@@ -215,7 +216,7 @@ def find_concrete_disagreement(pc, lhs, rhs, tries=6):
             prefs = [v >= 2 for v in vs] + ([z3.Distinct(*vs)] if len(vs) > 1 else [])
         elif attempt == 1:
             prefs = [v >= 2 for v in vs]
-        m = small_model(pc, extra + prefs, bounds=(3, 4, 5, 7) if attempt < 2 else (2, 3, 4, 6))
+        m = small_model(pc, extra + prefs, bounds=(3, 4, 5) if attempt < 2 else (2, 3, 4))
         if m is None:
             if attempt < 2:
                 continue
@@ -228,9 +229,9 @@ def find_concrete_disagreement(pc, lhs, rhs, tries=6):
         seen.add(key)
         try:
             for seed in (0, 1):
-                ev = P.Evaluator(env, seed)
+                ev = P.Evaluator(env, seed, complex_mode=cmode)
                 a = ev.term(Term(lhs.monos))
-                ev2 = P.Evaluator(env, seed)
+                ev2 = P.Evaluator(env, seed, complex_mode=cmode)
                 ev2.uf = ev.uf
                 b = ev2.term(Term(rhs.monos))
                 if a != b:
@@ -240,6 +241,21 @@ def find_concrete_disagreement(pc, lhs, rhs, tries=6):
         if vs:
             extra.append(z3.Or(*[v != m.eval(v, model_completion=True) for v in vs]))
     return None
+
+
+def _mentions_conj(e):
+    from .terms import CONJ
+    stack = [e]
+    seen = set()
+    while stack:
+        x = stack.pop()
+        if x.get_id() in seen:
+            continue
+        seen.add(x.get_id())
+        if z3.is_app(x) and x.decl().eq(CONJ):
+            return True
+        stack.extend(x.children())
+    return False
 
 
 def concretise(value, m):
